@@ -145,10 +145,25 @@ bool FileManager::isHexahedralMesh(const std::string& _filename) const {
 
   std::string s;
   unsigned int n = 0u;
+  unsigned int v = 0;
+  char tmp[256];
 
   // Skip until we find polyhedra section
   while (iff.good()) {
     iff >> s;
+    if (s == "Faces") {
+      // every face of the mesh (also one that belongs to no cell) has to fit
+      unsigned int n_faces = 0u;
+      iff >> n_faces;
+      for (unsigned int i = 0; i < n_faces && iff.good(); ++i) {
+        iff >> v;
+        iff.getline(tmp, 256);
+        if (v != 4u) {
+          iff.close();
+          return false;
+        }
+      }
+    }
     if (s == "Polyhedra") {
       break;
     }
@@ -163,8 +178,6 @@ bool FileManager::isHexahedralMesh(const std::string& _filename) const {
   // Read in number of cells
   iff >> n;
   if(n == 0) return false;
-  unsigned int v = 0;
-  char tmp[256];
   for (unsigned int i = 0; i < n; ++i) {
     iff >> v;
     iff.getline(tmp, 256);
@@ -192,10 +205,25 @@ bool FileManager::isTetrahedralMesh(const std::string& _filename) const {
 
   std::string s;
   unsigned int n = 0u;
+  unsigned int v = 0;
+  char tmp[256];
 
   // Skip until we find polyhedra section
   while (iff.good()) {
     iff >> s;
+    if (s == "Faces") {
+      // every face of the mesh (also one that belongs to no cell) has to fit
+      unsigned int n_faces = 0u;
+      iff >> n_faces;
+      for (unsigned int i = 0; i < n_faces && iff.good(); ++i) {
+        iff >> v;
+        iff.getline(tmp, 256);
+        if (v != 3u) {
+          iff.close();
+          return false;
+        }
+      }
+    }
     if (s == "Polyhedra") {
       break;
     }
@@ -210,8 +238,6 @@ bool FileManager::isTetrahedralMesh(const std::string& _filename) const {
   // Read in number of cells
   iff >> n;
   if(n == 0) return false;
-  unsigned int v = 0;
-  char tmp[256];
   for (unsigned int i = 0; i < n; ++i) {
     iff >> v;
     iff.getline(tmp, 256);
